@@ -25,7 +25,7 @@ def conc_cfg(rng):
         cfg["parameters"]["m%d" % k] = "<m%d|%%lit%%|%d-%%lit%%>" % (k, k)
     cfg["meta"]["functions"] = {"myfn": "fx.Fn1"}
     names = list(cfg["services"])
-    cfg["services"][[x for x in names if x != "h"][-1]]["arguments"].append("%cat%")
+    cfg["services"][[x for x in names if x not in ("h", "vv")][-1]]["arguments"].append("%cat%")
     cfg["services"][names[0]]["tags"] = ["t"]
     cfg["services"][names[0]]["getter"] = "GetFirst"
     cfg["services"][names[0]]["type"] = "*fx.Obj"
@@ -44,7 +44,7 @@ def run(ctx, n=None, par=None):
     items = []
     for i in range(n):
         cfg = conc_cfg(ctx.rng)
-        names = [x for x in cfg["services"] if x not in ("vctx", "vns", "ns")]
+        names = [x for x in cfg["services"] if x not in ("vctx", "vns", "ns", "vv")]
         ops = [["counters"], ["newctx", "c1"], ["newctx", "c2"], ["newctx", "c3"]]
         for nm in names + ["ns"]:
             ops.append(["par", par, ["get", nm]])
